@@ -316,7 +316,8 @@ GENERIC = (' Also decided (engine/generic.py) over the functions of this propert
            'failure result (E), 1-bit flags stored normalised (B), field widths agree (W), allocation results examined '
            '(N), "unset" sentinels survive widening (S) and are not the only value handed on (U), constructors read a '
            'field only after storing it (Z), cursor loops advance on every way round (G), trivial accessors use the '
-           'field they are named after (H), list walks start at the head and follow one direction (L); and, against '
+           'field they are named after (H), list walks start at the head and follow one direction (L), single-bit flag constants applied to one word are distinct bits (D), '
+           'constants stored into or compared with a bit-field fit its width (Q); and, against '
            'the reference profile of the repaired tree (engine/baseline_*.json): boundaries, constant arguments, '
            'argument roles, stored / returned constants, switch fall-through, small offsets, truth tables of compound '
            'conditions and sibling callees unchanged (C, K, A, R, F, O, T, V).')
@@ -359,7 +360,8 @@ EXTRA = {
     'C14': ' Further: references taken are released on the failure paths that follow (C14.2g); a preallocated hash '
            'entry is consumed or freed before it is forgotten (C14.9); list operations decided on all small lists '
            '(C14.11); a place in the owner queue is one reference (C14.12); container growth is all-or-nothing (C14.13); '
-           'the owned-names list follows the life of owner objects (C14.14).',
+           'the owned-names list follows the life of owner objects (C14.14); the allocators return NULL rather than abort unless '
+           'DBUS_MALLOC_CANNOT_FAIL asked for it (C14.15).',
     'C15': ' Further: read budget while descriptors are pending (C15.8); descriptor passing marked negotiated only on '
            'AGREE_UNIX_FD / when answering NEGOTIATE_UNIX_FD (C15.9); limit setters only lower the request (C15.11); the '
            'descriptor counter notifies exactly on crossings (C15.12).',
